@@ -48,6 +48,8 @@ def mom4 {K} [Add K] [Mul K] [OfNat K 0] (bs : List (BPoint K)) (a c d e : Fin 3
 def mom5 {K} [Add K] [Mul K] [OfNat K 0] (bs : List (BPoint K)) (a c d e f : Fin 3) : K :=
   mom (fun b => b a * b c * b d * b e * b f) bs
 
+def fin3 : List (Fin 3) := [0, 1, 2]
+
 /-! ### the chain of SystemKP: Ham → derHam → der2Ham → der3Ham -/
 
 def der1 {K} [Add K] [Mul K] [OfNat K 0] (bs : List (BPoint K)) (H : V3 K → K) (k : V3 K) (e1 : Fin 3) : K :=
@@ -81,6 +83,171 @@ def cubicHess {K} [Add K] [Mul K] (h : Fin 3 → Fin 3 → K) (t : Fin 3 → Fin
 def cubicD3 {K} [Add K] (t : Fin 3 → Fin 3 → Fin 3 → K) (e1 e2 e3 : Fin 3) : K :=
   t e1 e2 e3 + t e2 e1 e3 + t e1 e3 e2 + t e2 e3 e1 + t e3 e1 e2 + t e3 e2 e1
 
+
+/-! ### `find_shells` / `check_B1`  (Rat; the SVD solve and `check_parallel` are abstract kernels)
+
+  Code (system/__finite_differences.py):
+      bki  = all integer triples in [-isearch, isearch]³ ;  bk = bki · basis ;  sorted by length
+      shells = find_degen(leng, 1e-8)[1:]                       (runs of the sorted lengths with gaps ≤ 1e-8)
+      for shell_try in shells[:50]:
+          if not check_parallel(selected, shell_try): continue
+          accept, checkB1, weights = check_B1(shell_mat, selected + [shell_try])
+          if accept:  selected.append(shell_try)
+          if checkB1: break
+      return per-vector weights / vectors of the selected shells with |w| > 1e-8
+  `check_B1`: SVD solve (reject if a singular value < 1e-7);  tol = ‖Σ_s w_s M_s − 1‖_F ;  B1 holds iff tol ≤ 1e-5.
+  A shell is identified by its index k ≥ 1 in the list of runs (k = 0 is the zero vector). -/
+
+abbrev I3 := Int × Int × Int
+
+def symRange (n : Nat) : List Int := (List.range (2 * n + 1)).map (fun (t : Nat) => (t : Int) - (n : Int))
+
+def boxList (n : Nat) : List I3 :=
+  (symRange n).flatMap (fun a => (symRange n).flatMap (fun b => (symRange n).map (fun c => (a, b, c))))
+
+def negI (m : I3) : I3 := (-m.1, -m.2.1, -m.2.2)
+
+/-- `bk = bki.dot(basis)` -/
+def cartI (basis : Fin 3 → Fin 3 → Rat) (m : I3) : V3 Rat :=
+  fun c => (m.1 : Rat) * basis 0 c + (m.2.1 : Rat) * basis 1 c + (m.2.2 : Rat) * basis 2 c
+
+/-- the search box sorted by length (`argsort(leng)`; ties in any order - here: stable merge sort).
+    `nrm` = `np.linalg.norm` (abstract; contract `nrm (−v) = nrm v`) -/
+def sortedBox (nrm : V3 Rat → Rat) (basis : Fin 3 → Fin 3 → Rat) (n : Nat) : List I3 :=
+  (boxList n).mergeSort (fun a c => decide (nrm (cartI basis a) ≤ nrm (cartI basis c)))
+
+/-- `find_degen`: the run index of sorted position `p` = number of cuts (gap > thresh) at positions 1..p -/
+def blockIdx (E : Nat → Rat) (th : Rat) (p : Nat) : Nat :=
+  ((List.range (p + 1)).filter (fun i => decide (0 < i) && decide (E i - E (i - 1) > th))).length
+
+/-- the sorted lengths, as an array (constant-time access) -/
+def keysOf (nrm : V3 Rat → Rat) (basis : Fin 3 → Fin 3 → Rat) (sb : List I3) : Array Rat :=
+  (sb.map (fun m => nrm (cartI basis m))).toArray
+
+/-- the vectors (integer triples) of shell `k` -/
+def shellVecs (nrm : V3 Rat → Rat) (basis : Fin 3 → Fin 3 → Rat) (n : Nat) (th : Rat) (k : Nat) : List I3 :=
+  let sb := sortedBox nrm basis n
+  let keys := keysOf nrm basis sb
+  let E : Nat → Rat := fun i => keys.getD i 0
+  ((List.range sb.length).filter (fun p => blockIdx E th p == k)).map (fun p => sb.getD p (0, 0, 0))
+
+/-- all run indices in one pass (equal to `(range N).map (blockIdx E th)`, proved in WB/Lemmas/C31Neg.lean) -/
+def blockIdxAll (E : Nat → Rat) (th : Rat) (N : Nat) : List Nat :=
+  ((List.range N).foldl (fun (acc : List Nat × Nat) p =>
+      let c := if decide (0 < p) && decide (E p - E (p - 1) > th) then acc.2 + 1 else acc.2
+      (c :: acc.1, c)) ([], 0)).1.reverse
+
+/-- the shells 0..nshells as a list, computed in one pass (entry k equals `shellVecs … k`) -/
+def shellTableList (nrm : V3 Rat → Rat) (basis : Fin 3 → Fin 3 → Rat) (n : Nat) (th : Rat) (nshells : Nat) :
+    List (List I3) :=
+  let sb := sortedBox nrm basis n
+  let keys := keysOf nrm basis sb
+  let E : Nat → Rat := fun i => keys.getD i 0
+  let pi := (List.range sb.length).zip (blockIdxAll E th sb.length)
+  (List.range (nshells + 1)).map (fun k => (pi.filter (fun x => x.2 == k)).map (fun x => sb.getD x.1 (0, 0, 0)))
+
+/-- lookup in a precomputed table (`[]` beyond its end) -/
+def tableFn (tbl : List (List I3)) : Nat → List I3 := fun k => tbl.getD k []
+
+/-- `shell_mat[k] = Σ_{b in shell} b bᵀ` (Cartesian) -/
+def shellMat (basis : Fin 3 → Fin 3 → Rat) (vecs : List I3) (a c : Fin 3) : Rat :=
+  (vecs.map (fun m => cartI basis m a * cartI basis m c)).sum
+
+/-- `check_eye = Σ_s w_s M_s` -/
+def checkEye (M : Nat → Fin 3 → Fin 3 → Rat) (sel : List Nat) (ws : List Rat) (a c : Fin 3) : Rat :=
+  ((sel.zip ws).map (fun kw => kw.2 * M kw.1 a c)).sum
+
+def delta3 (a c : Fin 3) : Rat := if a = c then 1 else 0
+
+/-- squared Frobenius norm of `check_eye − 1`  (the code compares the norm with 1e-5: same as comparing squares) -/
+def resid2 (M : Nat → Fin 3 → Fin 3 → Rat) (sel : List Nat) (ws : List Rat) : Rat :=
+  (fin3.flatMap (fun a => fin3.map (fun c => (checkEye M sel ws a c - delta3 a c) * (checkEye M sel ws a c - delta3 a c)))).sum
+
+/-- outcome of `check_B1`: `(accept, checkB1, weights)`; `kernel sel = none` ⇔ a singular value is below 1e-7 -/
+def checkB1 (kernel : List Nat → Option (List Rat)) (M : Nat → Fin 3 → Fin 3 → Rat) (tol : Rat) (sel : List Nat) :
+    Bool × Bool × Option (List Rat) :=
+  match kernel sel with
+  | none => (false, false, none)
+  | some ws => if resid2 M sel ws > tol * tol then (true, false, none) else (true, true, some ws)
+
+/-- the loop of `find_shells` over the candidate shells; state = (selected, last value of `weights`).
+    Returns the state at the `break` or at the end of the candidates. -/
+def shellLoop (par : List Nat → Nat → Bool) (kernel : List Nat → Option (List Rat))
+    (M : Nat → Fin 3 → Fin 3 → Rat) (tol : Rat) : List Nat → List Nat → Option (List Rat) → List Nat × Option (List Rat)
+  | [], sel, w => (sel, w)
+  | k :: rest, sel, w =>
+    if !par sel k then shellLoop par kernel M tol rest sel w
+    else
+      match checkB1 kernel M tol (sel ++ [k]) with
+      | (accept, b1, w') =>
+        let sel' := if accept then sel ++ [k] else sel
+        if b1 then (sel', w') else shellLoop par kernel M tol rest sel' w'
+
+def absQ (x : Rat) : Rat := if x < 0 then -x else x
+
+/-- per-vector expansion with the `abs(w) > 1e-8` filter -/
+def expandF (vecsOf : Nat → List I3) (eps : Rat) (sel : List Nat) (ws : List Rat) : List (Rat × I3) :=
+  (sel.zip ws).flatMap (fun kw => if decide (absQ kw.2 > eps) then (vecsOf kw.1).map (fun m => (kw.2, m)) else [])
+
+/-- `find_shells`: `none` models the `TypeError` of the code when `weights` is still `None` after the loop -/
+def findShells (par : List Nat → Nat → Bool) (kernel : List Nat → Option (List Rat)) (nrm : V3 Rat → Rat)
+    (basis : Fin 3 → Fin 3 → Rat) (n : Nat) (th tol eps : Rat) (nshells : Nat) : Option (List (Rat × I3)) :=
+  let tbl := shellTableList nrm basis n th nshells
+  let vecsOf := tableFn tbl
+  let M : Nat → Fin 3 → Fin 3 → Rat := fun k => shellMat basis (vecsOf k)
+  match shellLoop par kernel M tol ((List.range nshells).map (· + 1)) [] none with
+  | (sel, some ws) => some (expandF vecsOf eps sel ws)
+  | (_, none) => none
+
+/-- the stencil handed to `Derivative3D` by `SystemKP`: `bk_red = bki·dk`, `bk_cart = bki·basis` (basis = recip·dk) -/
+def toStencil (basis : Fin 3 → Fin 3 → Rat) (dk : Rat) (st : List (Rat × I3)) : List (BPoint Rat) :=
+  st.map (fun wm => ⟨wm.1, fun a => match a.val with
+    | 0 => (wm.2.1 : Rat) * dk
+    | 1 => (wm.2.2.1 : Rat) * dk
+    | _ => (wm.2.2.2 : Rat) * dk, cartI basis wm.2⟩)
+
+
+/-! ### exact kernels for the driver (the theorems treat `par` and `kernel` as arbitrary functions) -/
+
+def cross3 (u v : V3 Rat) : V3 Rat := fun a =>
+  match a.val with
+  | 0 => u 1 * v 2 - u 2 * v 1
+  | 1 => u 2 * v 0 - u 0 * v 2
+  | _ => u 0 * v 1 - u 1 * v 0
+
+/-- `check_parallel` in exact arithmetic: no vector of the candidate shell is parallel to a vector of a selected shell -/
+def parExact (basis : Fin 3 → Fin 3 → Rat) (vecsOf : Nat → List I3) (sel : List Nat) (k : Nat) : Bool :=
+  sel.all (fun s => (vecsOf s).all (fun i => (vecsOf k).all (fun j =>
+    let c := cross3 (cartI basis i) (cartI basis j)
+    !(c 0 == 0 && c 1 == 0 && c 2 == 0))))
+
+/-- Gaussian elimination without pivot search (the Gram matrix is positive definite when it is regular) -/
+def solveLin : Nat → List (List Rat) → List Rat → Option (List Rat)
+  | 0, _, _ => some []
+  | m + 1, G, r =>
+    match G, r with
+    | row :: restG, r0 :: restR =>
+      let p := row.headD 0
+      if p == 0 then none else
+      let rowT := row.tail
+      -- eliminate the first unknown from the remaining equations
+      let G' := restG.map (fun g => let f := g.headD 0 / p; (g.tail.zip rowT).map (fun xy => xy.1 - f * xy.2))
+      let r' := (restG.zip restR).map (fun gr => gr.2 - (gr.1.headD 0 / p) * r0)
+      match solveLin m G' r' with
+      | none => none
+      | some w => some ((r0 - ((rowT.zip w).map (fun xy => xy.1 * xy.2)).sum) / p :: w)
+    | _, _ => none
+
+/-- the weights of `check_B1` in exact arithmetic: `w = b Aᵀ (A Aᵀ)⁻¹` (the pseudo-inverse solution when all singular
+    values are non-zero); `none` when the Gram matrix is singular -/
+def kernelExact (M : Nat → Fin 3 → Fin 3 → Rat) (sel : List Nat) : Option (List Rat) :=
+  let ip (s t : Nat) : Rat := (fin3.flatMap (fun a => fin3.map (fun c => M s a c * M t a c))).sum
+  let G := sel.map (fun s => sel.map (fun t => ip s t))
+  let r := sel.map (fun s => M s 0 0 + M s 1 1 + M s 2 2)
+  solveLin sel.length G r
+
+def len2 (v : V3 Rat) : Rat := v 0 * v 0 + v 1 * v 1 + v 2 * v 2
+
 /-! ### driver (Rat): monomial-list polynomials, the `k_to_1BZ` wrap, Cartesian / reduced convention -/
 open WB.IO
 
@@ -108,8 +275,6 @@ def parseStencil (rows : List (List Rat)) : List (BPoint Rat) :=
 
 def parsePoly (rows : List (List Rat)) : List (Rat × Nat × Nat × Nat) :=
   rows.map (fun r => (r.getD 0 0, (r.getD 1 0).floor.toNat, (r.getD 2 0).floor.toNat, (r.getD 3 0).floor.toNat))
-
-def fin3 : List (Fin 3) := [0, 1, 2]
 
 def handle : List String → String
   -- d3d order wrap cart stencil(rows: w,bred*3,bcart*3) poly(rows: c,i,j,l) B(3 rows) k comps(e1,e2,e3 - first `order` used)
@@ -140,6 +305,20 @@ def handle : List String → String
       showRats (fin3.flatMap (fun a => fin3.map (fun c => mom2 bs a c))) ++ " " ++
       showRats (fin3.flatMap (fun a => fin3.flatMap (fun c => fin3.map (fun d => mom3 bs a c d))))
     | none => "bad-op"
+  -- fshells n basis(3 rows) tol eps nshells → the stencil of find_shells `w,i,j,l;...` (exact kernels, shells = equal
+  --   squared lengths) or `none`
+  | ["fshells", n, b, tol, eps, ns] =>
+    match parseNat? n, parseRatss? b, parseRat? tol, parseRat? eps, parseNat? ns with
+    | some n, some b, some tol, some eps, some ns =>
+      let basis : Fin 3 → Fin 3 → Rat := fun a c => (b.getD a.val []).getD c.val 0
+      let tbl := shellTableList len2 basis n 0 ns
+      let vecsOf := tableFn tbl
+      let M : Nat → Fin 3 → Fin 3 → Rat := fun k => shellMat basis (vecsOf k)
+      match findShells (parExact basis vecsOf) (kernelExact M) len2 basis n 0 tol eps ns with
+      | none => "none"
+      | some st => ";".intercalate (st.map (fun wm =>
+          showRat wm.1 ++ "," ++ toString wm.2.1 ++ "," ++ toString wm.2.2.1 ++ "," ++ toString wm.2.2.2))
+    | _, _, _, _, _ => "bad-op"
   | _ => "bad-op"
 
 end WB.C31
